@@ -11,7 +11,9 @@ Tie / search on the implementation (this file):
            get_config(init kw)
   seed     RTL layers / random ensembles: same config + same seed => same structure/outputs
   saveload model.save / load_model with premade.get_custom_objects() after 0, 1, 3
-           training steps: same outputs, assert_constraints still passes
+           training steps: same outputs, assert_constraints still passes (h5 + legacy SGD;
+           .keras + Adam for every model kind, SavedModel, h5 + Adam; resume: one more
+           training step on both models)
   dtype    witness of known finding D23
 """
 import copy
@@ -20,6 +22,7 @@ import importlib
 import inspect
 import json
 import os
+import shutil
 import sys
 
 import numpy as np
@@ -42,9 +45,16 @@ RULE = ("every class of tensorflow_lattice/python with get_config (39 today, fou
         "randomised weights; each non-default argument must leave a trace in the config; the observed config is "
         "compared in Coq with the model's get_config(init kw); flip = the class's first scenario with exactly one "
         "bool/int/float argument changed: round trip, and the change shows under its own key only; rtl_seed / "
-        "ensemble_seed = same config + seed => same structure and outputs; saveload = h5 save / load_model with "
-        "premade.get_custom_objects() after 0,1,3 (thorough 0..5) training steps: same outputs, same layers pass "
-        "assert_constraints. Non-trivial = an obj case with at least one non-default optional argument, or any "
+        "ensemble_seed = same config + seed => same structure and outputs (per quick run 8 RTL cases: 4 with one "
+        "dense tensor per key, 4 with a LIST of tensors per key = input groups of width 1-3, either key possibly "
+        "absent, ranks 2-4, 2-6 lattices, fewer or more slots than features, both parameterizations, "
+        "avoid_intragroup_interaction on/off; 4 random-ensemble cases with 2-5 lattices of rank 2-3 over 3-5 "
+        "features); saveload = h5 save / load_model with "
+        "premade.get_custom_objects() after 0,1,3 (thorough 0..5) training steps with legacy SGD: same outputs, same "
+        "layers pass assert_constraints; plus, per run, the Keras archive format (.keras) with the non-legacy Adam "
+        "optimizer for all five model kinds at a seed-drawn step 1-3, SavedModel (save_format='tf') for two kinds, "
+        "h5 with Adam for one; on the .keras / h5 ones both the original and the reloaded model then train ONE MORE "
+        "step on the same batch and must still agree (tolerance 1e-5: the restored optimizer state). Non-trivial = an obj case with at least one non-default optional argument, or any "
         "flip/seed/saveload case; distinct = distinct case descriptions.")
 TRUSTED = [
     "translator harness/translators/gen_config.py (Python ast, fail-closed) regenerates Gen/GenConfig.v and the "
@@ -67,7 +77,25 @@ LIMITS = [
     "pwl_calibration_layer.{LaplacianRegularizer,HessianRegularizer,WrinkleRegularizer,UniformOutputInitializer} "
     "are not in premade.get_custom_objects (LaplacianRegularizer clashes with lattice_layer's); they are resolved "
     "by PWLCalibration.__init__'s own scope and are outside C11_registry_covers_layers",
-    "save format: HDF5 (.h5), the one the repository's tests use with tf_keras legacy configs",
+    "save formats: HDF5 (.h5, the one the repository's tests use with tf_keras legacy configs), the Keras archive "
+    "(.keras) and SavedModel (save_format='tf') of the installed tf_keras 2.21: all three load the five saved model "
+    "kinds with premade.get_custom_objects(); SavedModel is not run for the CDF model (its Input is named 'in', which "
+    "the SavedModel signature rejects - a harness choice, not the library) and does not restore the optimizer "
+    "object eagerly, so the resume comparison is skipped for it; weights-only files (save_weights / load_weights) "
+    "are not exercised; optimizers: legacy SGD and non-legacy Adam only",
+    "the generated theorems C11_<Class>_roundtrip / _config_stable are implications from three oracle hypotheses "
+    "(Proofs/ConfigRoundTrip.v oracles_ok: idempotent wrappers, get(ser(get x)) = get x, deser(ser v) = v).  The "
+    "third, deser(ser v) = v, is FALSE of the real code exactly in the case of known finding D31: "
+    "tfl.layers.Aggregation whose `model` argument is a plain functional / Sequential keras.Model - "
+    "Aggregation.from_config resolves the serialized inner model through the tfl custom objects only and raises "
+    "ValueError \"Unknown object: 'Functional'\".  C11_Aggregation_roundtrip and C11_Aggregation_config_stable "
+    "therefore say nothing about that argument class (they hold for an inner premade model, which is "
+    "registered); the executed obj case `plain_functional_inner_model` is the witness and is reported as the "
+    "known finding, it never reaches the output comparison",
+    "seed-derived structure: C11_rtl_structure_deterministic / C11_random_ensemble_deterministic only say that the "
+    "arguments the structure functions read survive the round trip; that the structure IS a function of them (and "
+    "of the input shapes, not of global RNG state) is observed by the rtl_seed / ensemble_seed cases, not proved "
+    "here (the RTL structure function itself is modelled in property C17)",
     "PWLCalibrationConstraints / KroneckerFactoredLatticeConstraints configs hold enum members / the scale "
     "variable: not JSON-serialisable, JSON leg skipped for them (Keras never writes these configs)",
 ]
@@ -627,14 +655,39 @@ def gen_descs(ctx):
   descs.extend(sc)
   descs.extend(flip_descs(sc, table))
   # seed determinism
-  for i in range(ctx.n(2, 8)):
-    nl, lr, n_unc = rng.choice([3, 5]), rng.choice([2, 3]), rng.choice([2, 3])
-    n_inc = min(rng.choice([2, 4]), nl * lr - n_unc)  # the layer rejects more features than lattice slots
-    descs.append(dict(kind="rtl_seed", seed=rng.randint(0, 10 ** 6), num_lattices=nl, lattice_rank=lr,
-                      n_unc=n_unc, n_inc=n_inc, avoid=rng.choice([True, False])))
-  for i in range(ctx.n(1, 4)):
-    descs.append(dict(kind="ensemble_seed", seed=rng.randint(0, 10 ** 6), num_lattices=rng.choice([2, 3]),
-                      lattice_rank=2, n=rng.choice([3, 4])))
+  for i in range(ctx.n(8, 24)):
+    if i % 2 == 0:
+      # one dense tensor per key: every column is its own input group
+      nl, lr, n_unc = rng.choice([3, 5]), rng.choice([2, 3]), rng.choice([2, 3])
+      n_inc = min(rng.choice([2, 4]), nl * lr - n_unc)  # the layer rejects more features than lattice slots
+      descs.append(dict(kind="rtl_seed", seed=rng.randint(0, 10 ** 6), num_lattices=nl, lattice_rank=lr,
+                        n_unc=n_unc, n_inc=n_inc, avoid=rng.choice([True, False])))
+    else:
+      # a LIST of tensors per key (a tensor of width w = one input group of w features: what
+      # avoid_intragroup_interaction is about), either key possibly absent, ranks up to 4, more or fewer slots than
+      # features (fill-up by repetition), both parameterizations
+      nl, lr = rng.choice([2, 3, 4, 6]), rng.choice([2, 3, 4])
+      unc = [rng.choice([1, 2, 3, 3]) for _ in range(rng.choice([0, 1, 1, 2]))]
+      inc = [rng.choice([1, 2, 2, 3]) for _ in range(rng.choice([0, 1, 1, 2]))]
+      while sum(unc) + sum(inc) > nl * lr:
+        (unc if len(unc) >= len(inc) else inc).pop()
+      if len(unc) + len(inc) < 2 or max(unc + inc) < 2:
+        # at least two groups, one of them with several features: only then can the swap loop of
+        # avoid_intragroup_interaction (and with it the seed-derived structure) do anything
+        unc, inc = [2], [1]
+      descs.append(dict(kind="rtl_seed", seed=rng.randint(0, 10 ** 6), num_lattices=nl, lattice_rank=lr,
+                        unc_groups=unc, inc_groups=inc, avoid=rng.random() < 0.85,
+                        param=rng.choice(["all_vertices", "kronecker_factored"])))
+  for i in range(ctx.n(4, 12)):
+    if i == 0:
+      descs.append(dict(kind="ensemble_seed", seed=rng.randint(0, 10 ** 6), num_lattices=rng.choice([2, 3]),
+                        lattice_rank=2, n=rng.choice([3, 4])))
+    else:
+      # more / fewer lattice slots than features (set_random_lattice_ensemble fills up by repetition), rank 3
+      lr = rng.choice([2, 3])
+      n = rng.choice([3, 4, 5])
+      nl = rng.choice([k for k in (2, 3, 4, 5) if k * lr >= n])
+      descs.append(dict(kind="ensemble_seed", seed=rng.randint(0, 10 ** 6), num_lattices=nl, lattice_rank=lr, n=n))
   # save / load
   steps_list = [0, 1, 3] if ctx.tier == "quick" else [0, 1, 2, 3, 4, 5]
   for model in ("calibrated_lattice", "calibrated_linear", "rtl", "ensemble_rtl"):
@@ -643,6 +696,17 @@ def gen_descs(ctx):
     for model in ("calibrated_lattice", "ensemble_rtl", "rtl"):
       descs.append(dict(kind="saveload", model=model, steps=steps_list, seed=rng.randint(0, 10 ** 6)))
   descs.append(dict(kind="saveload", model="cdf", steps=[0, 1], seed=rng.randint(0, 10 ** 6)))
+  # the Keras v3 archive format (.keras) with the (stateful, non-legacy) Adam optimizer, every model kind, saved at
+  # a seed-drawn training step; afterwards BOTH models train one more step on the same batch (resume: the restored
+  # optimizer state matters) and must still agree; SavedModel for two kinds; h5 with Adam for one
+  more = [(m, "keras", "adam") for m in ("calibrated_lattice", "calibrated_linear", "rtl", "ensemble_rtl", "cdf")]
+  more += [(rng.choice(["calibrated_lattice", "calibrated_linear"]), "tf", "adam"),
+           (rng.choice(["rtl", "ensemble_rtl"]), "tf", "sgd"),
+           (rng.choice(["calibrated_lattice", "rtl"]), "h5", "adam")]
+  for model, fmt, opt in more:
+    st = [rng.choice([1, 2, 3])] if ctx.tier == "quick" else [0, 2, 5]
+    descs.append(dict(kind="saveload", model=model, steps=st, seed=rng.randint(0, 10 ** 6), fmt=fmt, opt=opt,
+                      resume=fmt != "tf"))
   descs.append(dict(kind="premade_dtype"))
   return descs
 
@@ -1110,11 +1174,22 @@ def eval_rtl_seed(d):
   rng_np = np.random.default_rng(d["seed"])
   kw = dict(num_lattices=d["num_lattices"], lattice_rank=d["lattice_rank"], random_seed=d["seed"],
             avoid_intragroup_interaction=d["avoid"])
-  info = dict(rtl=dict(unconstrained=d["n_unc"], increasing=d["n_inc"]), rng=[0, 1])
+  if d.get("param"):
+    kw["parameterization"] = d["param"]
+    if d["param"] == "kronecker_factored":
+      # the default 'random_monotonic_initializer' is documented as not supported with this parameterization
+      kw["kernel_initializer"] = "kfl_random_monotonic_initializer"
   fails = []
   try:
     a, b = RTL(**kw), RTL.from_config(RTL(**kw).get_config())
-    x = make_inputs(info, rng_np, "float32")
+    if "unc_groups" in d:
+      x = {}
+      for key, groups in (("unconstrained", d["unc_groups"]), ("increasing", d["inc_groups"])):
+        if groups:
+          x[key] = [tf.constant(rng_np.integers(0, 9, size=(7, w)) / 8.0, dtype="float32") for w in groups]
+    else:
+      info = dict(rtl=dict(unconstrained=d["n_unc"], increasing=d["n_inc"]), rng=[0, 1])
+      x = make_inputs(info, rng_np, "float32")
     a(x)
     np.random.seed(12345)  # the structure must not depend on the global NumPy state
     b(x)
@@ -1135,7 +1210,8 @@ def eval_rtl_seed(d):
   except Exception as ex:  # pylint: disable=broad-except
     fails.append("raised %s: %s" % (type(ex).__name__, str(ex)[:300]))
     differs = False
-  return Case(d, pred_fail="RTL(%r): %s" % (kw, "; ".join(fails)) if fails else None, klass="rtl_seed",
+  return Case(d, pred_fail="RTL(%r): %s" % (kw, "; ".join(fails)) if fails else None,
+              klass="rtl_seed_groups" if "unc_groups" in d else "rtl_seed",
               info={"other_seed_gives_other_structure": differs})
 
 
@@ -1252,6 +1328,8 @@ def eval_saveload(ctx, d):
   done = []
   tb = None
   checked_layers = 0
+  resumed = False
+  fmt, opt = d.get("fmt", "h5"), d.get("opt", "sgd")
   try:
     tf.random.set_seed(d["seed"] % 10000)
     rng_np = np.random.default_rng(d["seed"])
@@ -1266,14 +1344,20 @@ def eval_saveload(ctx, d):
     ys = rng_np.integers(-8, 9, size=(N, 1)) / 4.0
     if d["model"] == "cdf":
       ys = np.repeat(ys, 2, axis=1)
-    model.compile(loss="mse", optimizer=keras.optimizers.legacy.SGD(0.3))
+    fmt, opt = d.get("fmt", "h5"), d.get("opt", "sgd")
+    model.compile(loss="mse", optimizer=keras.optimizers.legacy.SGD(0.3) if opt == "sgd"
+                  else keras.optimizers.Adam(0.125))
     trained = 0
     for steps in d["steps"]:
       while trained < steps:
         model.train_on_batch(xs, ys)
         trained += 1
-      path = os.path.join(ctx.scratch, "m_%s_%d_%d.h5" % (d["model"], d["seed"], steps))
-      keras.models.save_model(model, path)
+      path = os.path.join(ctx.scratch, "m_%s_%d_%d.%s" % (d["model"], d["seed"], steps,
+                                                           {"h5": "h5", "keras": "keras", "tf": "savedmodel"}[fmt]))
+      if fmt == "tf":
+        keras.models.save_model(model, path, save_format="tf")
+      else:
+        keras.models.save_model(model, path)   # the format follows the extension (.h5 / .keras)
       loaded = keras.models.load_model(path, custom_objects=e.mods["premade"].get_custom_objects())
       r = outputs_equal(model(ex), loaded(ex))
       if r:
@@ -1291,15 +1375,28 @@ def eval_saveload(ctx, d):
                      "reloading: %s" % (steps, n0, n1, (b1 + b0)[:2]))
       checked_layers = max(checked_layers, count_constrained(model) - len(n0))
       done.append(steps)
-      os.remove(path)
+      if fmt == "tf":
+        shutil.rmtree(path, ignore_errors=True)
+      else:
+        os.remove(path)
+      if d.get("resume") and steps == d["steps"][-1]:
+        # training resumes from the reloaded model as from the original: one more step on the same batch
+        model.train_on_batch(xs, ys)
+        loaded.train_on_batch(xs, ys)
+        trained += 1
+        r = outputs_equal(model(ex), loaded(ex), tol=1e-5)
+        if r:
+          fails.append("one more training step after the reload at step %d (optimizer %s): the reloaded model and "
+                       "the original compute different outputs: %s" % (steps, opt, r))
+        resumed = True
   except Exception as ex:  # pylint: disable=broad-except
     import traceback  # pylint: disable=g-import-not-at-top
     fails.append("save/load raised %s: %s" % (type(ex).__name__, " ".join(str(ex).split())[:300]))
     tb = traceback.format_exc()[-1500:]
   return Case(d, pred_fail="save/load of %s model: %s" % (d["model"], "; ".join(fails[:3])) if fails else None,
-              klass="saveload_%s" % d["model"],
-              info={"steps_checked": done, "format": "h5", "layers_passing_assert_constraints": checked_layers,
-                    "traceback": tb})
+              klass="saveload_%s%s" % (d["model"], "" if (fmt, opt) == ("h5", "sgd") else "_%s_%s" % (fmt, opt)),
+              info={"steps_checked": done, "format": fmt, "optimizer": opt, "resumed_training_compared": resumed,
+                    "layers_passing_assert_constraints": checked_layers, "traceback": tb})
 
 
 def eval_premade_dtype(d):
